@@ -682,7 +682,9 @@ theorem completeRetry_spec {exo} {h : Hints} {s : State} {tid : Nat} {t0 : Task}
     (h0 : alookup tid s.tasks = some t0) (hr : t0.response = none) (hw : t0.worker = none)
     (hl : t0.learner = some l) :
     wp (completeRetry h s t0 r l) (fun s' => InvX (fun _ => False) exo s' ∧ ContPost s tid t0 s' ∧
-      s'.nextTask = s.nextTask ∧ s'.nextOp = s.nextOp) := by
+      s'.nextTask = s.nextTask ∧ s'.nextOp = s.nextOp ∧
+      ∃ t', alookup tid s'.tasks = some t' ∧ t'.learner = some s.nextLearner ∧
+        t'.scq = largestScq s t0.scq ∧ t'.response = none) := by
   have hid : t0.id = tid := (hI.core.tid tid t0 h0).1
   have hI2 := retrySt_inv r hI h0 hl
   have ht2 : alookup tid (retrySt s t0 l r).tasks = some (retryTask s t0 l r) := by
@@ -697,7 +699,9 @@ theorem completeRetry_spec {exo} {h : Hints} {s : State} {tid : Nat} {t0 : Task}
   have ht3' : alookup (bumpGen t3).id s3.tasks = some t3 := by simp only [bumpGen]; rw [hid3]; exact ht3
   have hI3' : InvX (fun _ => False) exo s3 := hI3.mono (fun k hk => hk.2 hk.1) (fun _ h => h)
   obtain ⟨ws, ts, asg, hs3⟩ := hp.same
-  refine ⟨bumpGen_inv hI3' ht3, ?_, by rw [hs3]; rfl, by rw [hs3]; rfl⟩
+  refine ⟨bumpGen_inv hI3' ht3, ?_, by rw [hs3]; rfl, by rw [hs3]; rfl,
+    ⟨bumpGen t3, by simp only [State.setTask, bumpGen]; rw [alookup_aset, if_pos hid3],
+      by rw [he3]; rfl, by rw [he3]; rfl, by rw [he3]; exact hr⟩⟩
   · have hfr : Fr s (s3.setTask (bumpGen t3)) :=
       ((retrySt_fr l r h0 hid hr).trans (hp.fr ht2 hr)).trans (Fr.setTask (t := bumpGen t3) ht3' rfl)
     refine ⟨hfr, ?_, ?_, ?_, ?_, by rw [hs3]; rfl, fun k _ => by rw [hs3]; rfl⟩
